@@ -1,6 +1,8 @@
 package main
 
 import (
+	"bytes"
+
 	"github.com/ipfs/go-cid"
 	mh "github.com/multiformats/go-multihash"
 )
@@ -79,7 +81,15 @@ func c06RunSession(c *Ctx, s c06Sess, step int, what string) {
 func init() {
 	register("c06", func(c *Ctx) {
 		rows := c06Rows()
-		nSess := 12 * c.Scale
+		{
+			// the fixed session of the C06 refutation witnesses (coq/proofs/CrashRefuted.v)
+			d0, d1, d2 := []byte("verif-c06-root"), []byte("verif-c06-a"), bytes.Repeat([]byte("verif-c06-bb"), 20)
+			root := mkCid(1, 0x55, mh.SHA2_256, -1, d0)
+			s := c06Sess{kind: 0, o: defaultWOpts, roots: []cid.Cid{root}, fin: true,
+				puts: []Blk{{mkCid(1, 0x55, mh.SHA2_256, -1, d1), d1}, {mkCid(1, 0x55, mh.SHA2_256, -1, d2), d2}}}
+			c06RunSession(c, s, 1, "witness")
+		}
+		nSess := 11 * c.Scale
 		for i := 0; i < nSess; i++ {
 			r := c.R.Fork()
 			o := rows[i%len(rows)]
